@@ -204,4 +204,16 @@ example :
     s.x1.chg = 1142 ∧ s.x1.sent = 1142 ∧ s.x1.pend = 0 ∧ s.x0.chg = 24 ∧ s.x0.pend = 24 ∧ s.x0.sent = 0 ∧
     s.x1.tot + 1142 = 3000000000 := by decide
 
+/-- non-vacuity for the TWO-ASSET STABLESWAP pair (amp 100, decimals 6/6, fees 1 % / 0.2 % / 0.1 %): the
+    same theorems apply with `ssCurve`; a charged swap (protocol fee 9 999, burn 999), a collection, a
+    swap the other way whose fee (500) stays below the threshold, a withdrawal -/
+example :
+    let s := Pair.reach (Pair.ssCurve 100 6 6)
+      (Pair.init true true ⟨10000000000000000, 2000000000000000, 1000000000000000⟩
+        [⟨1000000000000, 1000000000000, 0⟩, ⟨1000000000000, 1000000000000, 0⟩, ⟨1000000000000, 1000000000000, 0⟩])
+      [.provide 0 0 100000000 100000000 none, .swap 1 0 1000000 (some 500000000000000000) 1, .collect,
+       .swap 2 1 50000 (some 500000000000000000) 2, .withdraw 0 1000000]
+    s.x1.chg = 9999 ∧ s.x1.sent = 9999 ∧ s.x1.col = 9999 ∧ s.x1.pend = 0 ∧ s.x1.brn = 999 ∧
+    s.x0.chg = 500 ∧ s.x0.pend = 500 ∧ s.x0.sent = 0 ∧ s.lpPair = 2000 ∧ s.sup = 199000000 := by decide +kernel
+
 end WW.C07
